@@ -490,7 +490,42 @@ def r5_own_tables(ctx, fam):
                     where(f))
 
 
+def r6_instrument_forwarding(ctx, fam):
+    """Server.instrument hands each of its parameters (auth, mode, read_only,
+    ...) to the same-named parameter of the instrumentation: a dropped
+    `read_only` or `auth` silently yields a writable / differently guarded
+    admin endpoint."""
+    m = ctx.model
+    S = {'sync': 'Server', 'async': 'AsyncServer'}[fam]
+    A = ADMIN[fam]
+    f = m.method(S, 'instrument')
+    init = m.method(A, '__init__')
+    construct = S + '.instrument'
+    calls = [c for c in walk_own(f.node) if isinstance(c, ast.Call) and
+             U(c.func).split('.')[-1] == A]
+    ctx.check(len(calls) == 1, construct, 'constructs the instrumentation '
+              'once', key='instrument-ctor', where=where(f))
+    for c in calls:
+        b = bind_call(c, init)
+        got = {k: txt(v) for k, v in b.args.items()}
+        want = {p: p for p in f.params[1:]}
+        want[init.params[1]] = 'self'
+        bad = {k: got.get(k) for k in want if got.get(k) != want[k]}
+        ctx.check(not bad and not b.errors, construct, 'every parameter of '
+                  'instrument() reaches the same-named parameter of %s' % A,
+                  key='instrument-forward', reason='%s receives %s' % (
+                      A, bad or b.errors), where=where(f, c))
+        rets = [r for r in walk_own(f.node) if isinstance(r, ast.Return)]
+        ctx.check(any(r.value is c for r in rets), construct, 'returns the '
+                  'instrumentation object', key='instrument-return',
+                  where=where(f, c))
+
+
 def run(ctx):
+    ctx.rule('C18.R6', 'instrument() forwards its configuration (auth, mode, '
+             'read_only, ...) parameter by parameter', floor=6)
+    for fam in SA:
+        r6_instrument_forwarding(ctx, fam)
     ctx.rule('C18.R1', 'credential decision table: auth kind x match',
              floor=16)
     for fam in SA:
